@@ -10,6 +10,12 @@ macro_rules! cm_ops {
         let nh = $cfg[1] as u8;
         let nb = $cfg[2] as u32;
         let seed = $cfg[3] as u64;
+        if $code != 0 && $code != 9 && slots[slot].is_none() {
+            return vec![-996];
+        }
+        if $code == 4 && slots[a[1] as usize].is_none() {
+            return vec![-996];
+        }
         match $code {
             0 => {
                 slots[slot] = Some(CountMinSketch::<$t>::with_seed(nh, nb, seed));
@@ -37,9 +43,26 @@ macro_rules! cm_ops {
                 }
             }
             8 => vec![slots[slot].as_ref().unwrap().total_weight() as i128],
+            10 => {
+                let bytes = slots[slot].as_ref().unwrap().serialize();
+                match CountMinSketch::<$t>::deserialize_with_seed(&bytes, seed) {
+                    Ok(s) => {
+                        slots[a[1] as usize] = Some(s);
+                        vec![1]
+                    }
+                    Err(_) => vec![ERR],
+                }
+            }
             9 => {
                 let bytes: Vec<u8> = a[1..].iter().map(|b| *b as u8).collect();
-                match CountMinSketch::<$t>::deserialize_with_seed(&bytes, seed) {
+                slots[slot] = None;
+                let base = crate::alloc_mark();
+                let r = CountMinSketch::<$t>::deserialize_with_seed(&bytes, seed);
+                if crate::alloc_peak_since(base) > 64 * bytes.len() + (1 << 20) {
+                    // out-of-proportion allocation: reported as ALLOC by the runner; drop the value
+                    return vec![crate::ALLOC];
+                }
+                match r {
                     Ok(s) => {
                         slots[slot] = Some(s);
                         vec![1]
@@ -57,6 +80,9 @@ macro_rules! cm_unsigned_ops {
         let slots: &mut Vec<Option<CountMinSketch<$t>>> = $slots;
         let a: &[i128] = $a;
         let slot = a[0] as usize;
+        if slots[slot].is_none() {
+            return vec![-996];
+        }
         match $code {
             5 => {
                 slots[slot].as_mut().unwrap().halve();
@@ -94,6 +120,10 @@ impl Family for Cm {
             6 => Cm::I32(c, vec![None; 8]),
             _ => Cm::I64(c, vec![None; 8]),
         }
+    }
+
+    fn parse_len(&self, code: i64, a: &[i128]) -> Option<usize> {
+        if code == 9 { Some(a.len() - 1) } else { None }
     }
 
     fn step(&mut self, code: i64, a: &[i128]) -> Ob {
